@@ -40,6 +40,7 @@ def corpus(tier, seed):
         std_spec("rect2", s + 29, 50, reparameterisations={"c": "rescaletobounds"}, kills=[200]),
         std_spec("disc2", s + 30, 25, max_iteration=100),
         std_spec("rect3", s + 31, 50, reparameterisations={"q": "rescaletobounds"}, kills=[220]),
+        std_spec("gauss2", s + 32, 50, plot=True),       # with the sampler's own plots enabled
     ]
     if tier == "thorough":
         k = 11
